@@ -37,7 +37,7 @@ Log        x + nu > 0 (log finite), Sx = |nu|; y: exp(bf y) >= 1e-6 |nu|, |bf y|
 BoxCox*    x + nu > 0, |lam ln(x+nu)| <= 13.8 (power branch), Sx = |nu|; y: 0 < lam y + 1, |ln(lam y + 1)| <= 13.8,
            backward(y) + nu >= 1e-6 |nu|, Sy = 1; BoxCox2sym (s = |x| + nu) also |lam ln nu| <= 13.8,
            |lam ln(s/nu)| <= 13.8 (for lam < 0 the transform saturates: the inverse has condition number
-           ((s/nu)^|lam| - 1)/|lam|), nu > 0, Sy = max(1, |BC(0)|)
+           ((s/nu)^|lam| - 1)/|lam|), nu > 0 (or nu = 0 with lam > EPS, where BC(0) = -1/lam), Sy = max(1, |BC(0)|)
            1e-10 < |lam| <= 1e-9 loses up to ~4e-6 by cancellation: known finding */power/lam_just_above_switch
 YeoJohnson w = nu + scale x: |lam ln(1+w)| <= 13.8 (w >= EPS), |(2-lam) ln(1-w)| <= 13.8 (w < EPS),
            Sx = (1+|nu|)/scale; y: argument of the power positive with |ln| <= 13.8, |nu| <= 1e6 (1+|w|),
@@ -138,8 +138,8 @@ def configs(cls, rng, n):
             nus = nu_pool(rng, mininu)
             lam = lams[i] if i < len(lams) else rng.choice(lams)
             nu = nus[(i * 7) % len(nus)] if i < 2 * len(nus) else rng.choice(nus)
-            if cls == "BoxCox2sym" and nu <= 0:
-                nu = 0.3
+            if cls == "BoxCox2sym" and (nu < 0 or (nu == 0 and not lam > EPS)):
+                nu = 0.3          # BC(0) must exist: nu > 0, or nu = 0 on the power branch with lam > 0
             out.append((ctor, {"nu": nu, "lam": lam}))
         if cls == "BoxCox1lam":
             out.append(({}, {"lam": 0.3, "nu": None}))
@@ -447,8 +447,10 @@ def region_x(cls, P, x):
         if nu != nu or lam != lam:
             return None
         if cls == "BoxCox2sym":
-            if not nu > 0:
+            if not (nu > 0 or (nu == 0 and lam > EPS)):
                 return None
+            if x == 0:
+                return (abs(nu), "zero", None)
             s = abs(x) + nu
         else:
             s = x + nu
@@ -457,7 +459,7 @@ def region_x(cls, P, x):
         if abs(lam) > EPS:
             if abs(lam * math.log(s)) > 13.8:
                 return None
-            if cls == "BoxCox2sym" and (abs(lam * math.log(nu)) > 13.8 or abs(lam * math.log(s / nu)) > 13.8):
+            if cls == "BoxCox2sym" and nu > 0 and (abs(lam * math.log(nu)) > 13.8 or abs(lam * math.log(s / nu)) > 13.8):
                 return None
             return (abs(nu), "power", "lam_just_above_switch" if abs(lam) <= 1e-9 else None)
         return (abs(nu), "log", None)
@@ -534,10 +536,10 @@ def region_y(cls, P, y, x):
         sy = 1.0
         u = y
         if cls == "BoxCox2sym":
-            if not nu > 0:
+            if not (nu > 0 or (nu == 0 and lam > EPS)):
                 return None
             if abs(lam) > EPS:
-                if abs(lam * math.log(nu)) > 13.8:
+                if nu > 0 and abs(lam * math.log(nu)) > 13.8:
                     return None
                 y0 = (spow(nu, lam) - 1) / lam
             else:
@@ -557,7 +559,7 @@ def region_y(cls, P, y, x):
             tag = "log"
         if not (fin(s) and s >= 1e-6 * abs(nu)) or s < 1e-300:
             return None
-        if cls == "BoxCox2sym" and abs(lam * math.log(s / nu)) > 13.8:
+        if cls == "BoxCox2sym" and nu > 0 and abs(lam * math.log(s / nu)) > 13.8:
             return None
         return (sy, tag, "lam_just_above_switch" if (tag == "power" and abs(lam) <= 1e-9) else None)
     if cls == "YeoJohnson":
@@ -652,14 +654,17 @@ def in_domain(cls, op, P, v):
         if nu != nu or lam != lam:
             return True
         if op != "bwd":
-            return (abs(v) if cls == "BoxCox2sym" else v) + nu > 0 and (cls != "BoxCox2sym" or nu > 0)
+            if cls == "BoxCox2sym":
+                return nu > 0 or (nu == 0 and lam > EPS)
+            return v + nu > 0
         if abs(lam) <= EPS:
             return cls != "BoxCox2sym" or nu > 0
         u = v
         if cls == "BoxCox2sym":
-            if not nu > 0:
+            if not (nu > 0 or lam > EPS):
                 return False
             u = abs(v) + (spow(nu, lam) - 1) / lam
+            return lam * u + 1 > 0 or v == 0
         return lam * u + 1 > 0
     if cls == "YeoJohnson":
         if op != "bwd":
@@ -820,9 +825,11 @@ def body(ctx):
                         if r < 0.6:
                             kw["nu"] = rng.choice(nu_pool(rng, p["mininu"]))
                             if cls == "BoxCox2sym" and kw["nu"] <= 0:
-                                kw["nu"] = 0.7
+                                kw["nu"] = 0.7 if kw["nu"] < 0 or not p["lam"] > EPS else 0.0
                         if r > 0.3:
                             kw["lam"] = rng.choice(lam_pool(rng, minilam))
+                            if cls == "BoxCox2sym" and kw.get("nu", p["nu"]) == 0 and not kw["lam"] > EPS:
+                                kw["lam"] = 0.5
                         o.setp(**kw)
                     elif cls == "LogSinh":
                         o.setp(xmax=10 ** rng.uniform(-2, 3), loga=rng.uniform(-20, 0))
